@@ -3,10 +3,13 @@
 import json, glob, os, re
 ROOT='/verif'
 conf={}
+demo={}
 for f in sorted(glob.glob(ROOT+'/.work/confirm-*.txt')):
     for l in open(f):
         m=re.match(r'(\S+) build=(\S+) test_failures=\[(.*?)\] failed_pkgs=\[(.*)\]',l.strip())
         if m: conf[m.group(1)]={'build':m.group(2),'test_failures':m.group(3),'failed_pkgs':m.group(4)}
+        m=re.match(r'(\S+) demo-(with|without) exit=(\d+)',l.strip())
+        if m: demo.setdefault(m.group(1),{})['%s_the_change_exit'%m.group(2)]=int(m.group(3))
 det={}
 for f in sorted(glob.glob(ROOT+'/.work/seedmut*.txt'), key=os.path.getmtime):
     for l in open(f):
@@ -21,7 +24,8 @@ for d in sorted(glob.glob(ROOT+'/seeded/C*-*')):
     except Exception: pass
     v={'seed':sid,'property':sid.split('-')[0],
        'confirmed_in_scratch_worktree':conf.get(sid),
-       'flaky_note':'TestWebsocketWithPingPongInterval / TestWebSocketErrorFunc are timing tests that also fail on the unpatched tree under load',
+       'demonstration_run_here':demo.get(sid),
+       'flaky_note':'TestWebsocketWithPingPongInterval / TestWebSocketErrorFunc are timing tests that also fail on the unpatched tree under load; TestNameForDir (internal/code) failed in some round-4 confirmations only because a stray *_test.go of another package lay in /tmp at the time (the test inspects /tmp) - it passes on those trees without that file',
        'checks_run':det.get(sid,{}),
        'how_run':'tools/confirmseed.sh %s (git worktree + git apply + go build ./... + go test -vet=off -count=1 ./...); tools/runmut.sh s%s seeded/%s/patch.diff <checks> (VERIF_REPO=<worktree> VERIF_TAG=... ./check Cxx, quick tier, seed 1)'%(sid,sid,sid)}
     json.dump(v,open(d+'/verif.json','w'),indent=1)
